@@ -33,7 +33,7 @@ class SmallSuite:
     components_real = SMALL_REAL
     components_sim = SMALL_SIM
 
-    def cases(self, rng, tier, run_seed):
+    def cases(self, rng, tier, run_seed, idx=0):
         yield self.gen_plan(rng, tier, run_seed)
 
 
@@ -331,6 +331,8 @@ class C15(SmallSuite):
                 s = rng.randrange(len(slots))
                 mk = slots[s]
                 o = {"op": "evaluate", "slot": s, "pt": rng.randrange(len(pts[mk]))}
+                if rng.random() < 0.3:
+                    o["buf"] = True      # the caller re-uses one work buffer per instance, overwritten in place
                 if members[mk]["cls"] == "StronginC3" and rng.random() < 0.5:
                     o["fid"] = rng.randrange(3)
                 ops.append(o)
@@ -366,6 +368,7 @@ class C15(SmallSuite):
         clean, _ = fork_call(_clean_room, members, [(a, list(b), c) for (a, b, c) in queries])
         rep.n_exec = 2
         slots = {}
+        bufs = {}
         events = []
         seen = {}
         constructed_since = {}
@@ -398,7 +401,14 @@ class C15(SmallSuite):
                     mk = plan_slot_member(plan, op["slot"])
                     pt = pts[mk][op["pt"]]
                     fid = op.get("fid")
-                    arr = np.array(pt, dtype=np.double)
+                    if op.get("buf"):
+                        arr = bufs.get(op["slot"])
+                        if arr is None:
+                            arr = bufs[op["slot"]] = np.zeros(len(pt), dtype=np.double)
+                        arr[:] = pt
+                        rep.probes["reused_buffer_evaluations"] += 1
+                    else:
+                        arr = np.array(pt, dtype=np.double)
                     cp = np.array(arr, copy=True)
                     holder = FunctionValue() if fid is None else FunctionValue(FunctionType.CONSTRAINT, fid)
                     ret = prob.Calculate(Point(arr, []), holder)
@@ -581,6 +591,90 @@ class C19(SmallSuite):
             "violation. non-trivial: >=8 ops incl. a best-interval request after a mutation or a refill; distinct = hash of the "
             "op-kind sequence + container kind")
 
+    ENUM_SYMS = ["Ia", "Ib", "Ic", "Ha", "Hb", "Hc", "B", "Sa", "Sb", "Sc", "R", "C"]
+    ENUM_KEYS = {"a": 0.0, "b": 1.0, "c": 2.5}
+    ENUM_XS = [0.5, 0.25, 0.75, 0.125, 0.625, 0.375, 0.875]
+    ENUM_CONFIGS = [("single", None), ("single", 2), ("dual", None), ("dual", 2)]
+    ENUM_BATCH = 2000
+    ENUM_MAXLEN = 5
+
+    @classmethod
+    def enum_total(cls):
+        n = len(cls.ENUM_SYMS)
+        return sum(n ** L for L in range(1, cls.ENUM_MAXLEN + 1))
+
+    @classmethod
+    def enum_decode(cls, number):
+        """number -> symbol sequence (all sequences of length 1..ENUM_MAXLEN, shortest first)"""
+        n = len(cls.ENUM_SYMS)
+        L = 1
+        while number >= n ** L:
+            number -= n ** L
+            L += 1
+        seq = []
+        for _ in range(L):
+            seq.append(cls.ENUM_SYMS[number % n])
+            number //= n
+        return seq
+
+    @classmethod
+    def enum_ops(cls, seq, dual):
+        K = cls.ENUM_KEYS
+        ops = [{"op": "insert_first", "g": [K["a"], K["b"]], "l": [K["a"], K["b"]]}]
+        nx = 0
+        for sym in seq:
+            if sym[0] in "IH":
+                k = K[sym[1]]
+                ops.append({"op": "insert", "x": cls.ENUM_XS[nx], "g": k, "l": k, "hint": sym[0] == "H",
+                            "rg": k if sym[0] == "H" else None, "rl": k if sym[0] == "H" else None})
+                nx += 1
+            elif sym == "B":
+                ops.append({"op": "best_g"})
+                if dual:
+                    ops.append({"op": "best_l"})
+            elif sym[0] == "S":
+                ops.append({"op": "set_r", "i": 1, "g": K[sym[1]], "l": K[sym[1]]})
+            elif sym == "R":
+                ops.append({"op": "refill"})
+            elif sym == "C":
+                ops.append({"op": "clear"})
+        ops.append({"op": "best_g"})
+        ops.append({"op": "walk"})
+        return ops
+
+    def cases(self, rng, tier, run_seed, idx=0):
+        if tier == "thorough":
+            per_cfg = -(-self.enum_total() // self.ENUM_BATCH)
+            if idx < per_cfg * len(self.ENUM_CONFIGS):
+                cfg = self.ENUM_CONFIGS[idx // per_cfg]
+                start = (idx % per_cfg) * self.ENUM_BATCH
+                yield {"property": self.prop, "suite": "containers", "format": 1, "run_seed": run_seed, "kind": cfg[0],
+                       "maxlen": cfg[1], "enum": {"start": start, "count": min(self.ENUM_BATCH, self.enum_total() - start)}}
+                return
+        yield self.gen_plan(rng, tier, run_seed)
+
+    def check_enum(self, plan):
+        rep = Report()
+        kind, maxlen = plan["kind"], plan["maxlen"]
+        e = plan["enum"]
+        n = 0
+        for number in range(e["start"], e["start"] + e["count"]):
+            seq = self.enum_decode(number)
+            sub = {"property": self.prop, "suite": "containers", "format": 1, "run_seed": plan["run_seed"], "kind": kind,
+                   "maxlen": maxlen, "ops": self.enum_ops(seq, kind == "dual"), "enumerated": "".join(seq)}
+            r = self.check(sub)
+            n += 1
+            if r.violations:
+                r.replay_plan = sub
+                r.probes["enumerated_sequences"] += n
+                return r
+        rep.probes["enumerated_sequences"] += n
+        rep.n_ops = n
+        rep.digest = core.short_hash((kind, maxlen, e["start"], e["count"]))
+        rep.nontrivial = rep.digest
+        rep.sig = rep.digest
+        return rep
+
     def gen_plan(self, rng, tier, run_seed):
         kind = rng.choice(["single", "single", "dual", "dual", "queue"])
         maxlen = rng.choice([None, None, 1, 2, 3, 5])
@@ -642,6 +736,8 @@ class C19(SmallSuite):
                 "maxlen": maxlen, "ops": ops}
 
     def check(self, plan):
+        if "enum" in plan:
+            return self.check_enum(plan)
         rep = Report()
         P = self.prop
         kind, maxlen = plan["kind"], plan["maxlen"]
